@@ -251,7 +251,7 @@ func (k Key) String() string {
 		}
 		return fmt.Sprintf("Ctrl+%c", val)
 	case k.Keycode <= unicode.MaxRune:
-		if k.Modifiers&ModCapsLock != 0 {
+		if k.Modifiers&ModCapsLock != 0 && k.Text == string(unicode.ToUpper(k.Keycode)) {
 			buf.WriteRune(unicode.ToUpper(k.Keycode))
 		} else {
 			buf.WriteRune(k.Keycode)
